@@ -48,6 +48,9 @@ pub fn alphabet() -> Vec<Req> {
         // no query of its own, but `=` inside the bytes that a stale query slice of a longer predecessor would cover
         r("get-cookie-no-query", b"GET /e HTTP/1.1\r\nHost: h\r\nCookie: z=1\r\n\r\n".to_vec(), "header"),
         // only application-defined header fields, none of the known names (they live in a table of their own)
+        // methods "without payload semantics" that carry a payload all the same: it belongs to them, not to the next request
+        r("get-with-payload", b"GET /e HTTP/1.1\r\nHost: h\r\nContent-Length: 14\r\n\r\n{\"q\":\"ohkami\"}".to_vec(), "payload"),
+        r("get-with-payload-looking-like-a-request", b"GET /e HTTP/1.1\r\nHost: h\r\nContent-Length: 28\r\n\r\nGET /e?smuggled HTTP/1.1\r\n\r\n".to_vec(), "payload"),
         r("get-only-custom", b"GET /e HTTP/1.1\r\nX-Api-Key: alice-secret\r\nX-Trace: t1\r\n\r\n".to_vec(), "header"),
     ];
     // refused because the head does not fit the buffer: the rest of that head is still on the connection when the refusal is
@@ -55,6 +58,9 @@ pub fn alphabet() -> Vec<Req> {
     let oversized = |pad: usize| { let mut v = b"GET /e HTTP/1.1\r\nHost: h\r\nX-Pad: ".to_vec(); v.extend(filler(pad)); v.extend_from_slice(b"\r\n\r\n"); v };
     v.push(r("refused-head-1100", oversized(1100 - 37), "refused"));
     v.push(r("refused-head-2100", oversized(2100 - 37), "refused"));
+    // `Connection: close` on a request whose hop-by-hop headers a (proxy-style) fang removes before the handler runs: what the
+    // client sent decides, not what application code left in the header table
+    v.push(Req { name: "get-close-stripped-by-fang", bytes: b"GET /e HTTP/1.1\r\nHost: h\r\nX-Strip-Hop-By-Hop: 1\r\nConnection: close\r\n\r\n".to_vec(), head: false, closes: true, kind: "close" });
     v.push(Req { name: "get-close", bytes: b"GET /e HTTP/1.1\r\nHost: h\r\nConnection: close\r\n\r\n".to_vec(), head: false, closes: true, kind: "close" });
     v
 }
